@@ -24,7 +24,8 @@ MANIFEST = {
             'occupancy states are those reached by the gated histories '
             '(arrivals, completions, cancels between loop steps).'
             '  Third session: the application-level shape workload builds NUMA nodes (a NUMA rank must stay in one domain and still carry the requested lfs/mem) and shared cores.'
-            '  Two or three application threads place and release ranks on one NodeList (yield before the node locks): every granted slot keeps the requested shape, all nodes are free after all releases.',
+            '  Two or three application threads place and release ranks on one NodeList (yield before the node locks): every granted slot keeps the requested shape, all nodes are free after all releases.'
+            '  Application-level histories include requests for ranks without a core (invalid, whatever was verified before): never granted.',
     'note': 'Continuous scheduler; colocate rule checked as "nodes subset of '
             'all nodes used earlier for that tag"; sampled histories.'}
 RULE   = ('same gated histories as C01 (biased to shapes that exactly fill / '
@@ -76,7 +77,8 @@ def nodelist_shapes(rng, res):
             case['ops'].append('release')
             continue
         rr = rp.RankRequirements(
-                n_cores=rng.choice([1, 1, 2, cpn, cpn + 1]),
+                # (0: a rank without a core is invalid, whatever came before)
+                n_cores=rng.choice([1, 1, 2, cpn, cpn + 1, 0, 1, 2]),
                 n_gpus=rng.choice([0, 0, 1, gpn, gpn + 1]) if gpn
                        else rng.choice([0, 0, 1]),
                 core_occupation=rng.choice([1.0, 1.0, 0.5, 0.25]),
@@ -96,6 +98,11 @@ def nodelist_shapes(rng, res):
         if slots is None:
             continue
         live.append(slots)
+        if rr.n_cores < 1:
+            res.violation('nodelist-coreless-rank-granted', 'a request for '
+                          'ranks without a core was granted %s' %
+                          [s.as_dict() for s in slots], case)
+            return case
         if too_big:
             res.violation('nodelist-oversized-granted', '%s on %s' % (rr, case),
                           case)
